@@ -17,7 +17,7 @@ def run_job(args):
 
 def show(t):
     k = t[0]
-    if k == "leaf": return {"None": "None", "True": "True", "False": "False", "i0": "0", "i1": "1", "f0": "0.0", "f1": "1.0", "fm0": "-0.0", "sa": "'a'", "sb": "'b'", "ba": "b'a'", "se": "''"}[t[1]]
+    if k == "leaf": return {"None": "None", "True": "True", "False": "False", "i0": "0", "i1": "1", "f0": "0.0", "f1": "1.0", "fm0": "-0.0", "sa": "'ax'", "sb": "'bx'", "ba": "b'ax'", "se": "''"}[t[1]]
     if k == "list": return "[" + ", ".join(show(x) for x in t[1]) + "]"
     if k == "tuple": return "(" + ", ".join(show(x) for x in t[1]) + ("," if len(t[1]) == 1 else "") + ")"
     if k == "set": return "{" + ", ".join(show(x) for x in t[1]) + "}" if t[1] else "set()"
@@ -77,7 +77,7 @@ def body(c):
                 owner[dg] = ti
     for t in rng.sample(terms, 3): c.sample({"term": t, "python": show(t)})
     c.exhaustive = True
-    c.rule = ("every term of Hasher.tla (leaves None/True/False/0/1/0.0/1.0/-0.0/'a'/'b'/b'a'/''; list, tuple, set, frozenset, dict with <= 2 elements; depth 2 over a "
+    c.rule = ("every term of Hasher.tla (leaves None/True/False/0/1/0.0/1.0/-0.0/'ax'/'bx'/b'ax'/''; list, tuple, set, frozenset, dict with <= 2 elements; depth 2 over a "
               "smaller leaf set) built from fresh objects in 3 construction orders, hashed with md5 and sha1 in interpreters with PYTHONHASHSEED %s; all digests of one "
               "term must coincide and no two terms may share a digest (all pairs, by bucketing); non-trivial = terms with an unordered part" % seeds)
     c.assumptions += ["no aliased sub-objects (every occurrence is a fresh object), as in the property's universe"]
